@@ -415,6 +415,11 @@ void session_interface::clear()
 {
 	check();
 	data_.clear();
+	// age, expiration policy and on-server flag live in the data as well (_t,_h,_s),
+	// so the cached copies have to go back to the defaults together with them
+	timeout_val_=timeout_val_def_;
+	how_=how_def_;
+	on_server_=0;
 }
 
 std::set<std::string> session_interface::key_set()
